@@ -59,7 +59,13 @@ def _walk(obj, path, out, depth=0):
         if k in SKIP_ATTRS:
             continue
         v = d[k]
-        if callable(v) and not hasattr(v, '__dict__'):
+        with NoTracing():
+            symv = core._is_sym(v)
+            skip = (not symv) and callable(v) and not hasattr(v, '__dict__')
+        if symv:
+            out[path + '.' + k] = v
+            continue
+        if skip:
             continue
         _walk(v, path + '.' + k, out, depth + 1)
 
